@@ -587,6 +587,26 @@ func init() {
 	reg(rtPkg+".Now", func(in *Interp, fr *frame, fn *ssa.Function, args []Value) Value {
 		return in.now()
 	})
+	// hashes: unconstrained fresh bytes per call (an over-approximation: equal inputs may give different digests)
+	freshDigest := func(n int, asArray bool) intrinsic {
+		return func(in *Interp, fr *frame, fn *ssa.Function, args []Value) Value {
+			vs := make([]Value, n)
+			for i := range vs {
+				vs[i] = in.freshVar("digest", 8)
+			}
+			if asArray {
+				return Array(vs)
+			}
+			return vs
+		}
+	}
+	reg("github.com/chrislusf/seaweedfs/weed/util.Md5", freshDigest(16, false))
+	reg("crypto/md5.Sum", freshDigest(16, true))
+	reg("crypto/sha256.Sum256", freshDigest(32, true))
+	reg("crypto/sha1.Sum", freshDigest(20, true))
+	reg("internal/reflectlite.TypeOf", func(in *Interp, fr *frame, fn *ssa.Function, args []Value) Value {
+		return Iface{t: types.NewPointer(in.namedType("internal/reflectlite", "rtype")), v: &builtinObj{kind: "rtype"}}
+	})
 	reg("reflect.TypeOf", func(in *Interp, fr *frame, fn *ssa.Function, args []Value) Value {
 		// reflection is not modelled: the result may be passed around but not used
 		return Iface{}
